@@ -1177,10 +1177,17 @@ impl<'ast, 'res> Resolver<'ast, 'res> {
 
     fn classify_expr(&self, expr: ExprRef<'ast>) -> ExprClass {
         match expr {
-            Expr::Number(..) | Expr::Bool(..) | Expr::Null(..) | Expr::Var(..) => {
-                ExprClass::PureNoTrap
-            }
-            Expr::String { .. } => ExprClass::PureNoTrap,
+            Expr::Number(..) | Expr::Bool(..) | Expr::Null(..) => ExprClass::PureNoTrap,
+            Expr::Var(name, ..) => self.variable_read_class(name),
+            Expr::String { parts, .. } => match parts {
+                StringParts::Static(..) => ExprClass::PureNoTrap,
+                StringParts::Interpolated(segments) => {
+                    segments.iter().fold(ExprClass::PureNoTrap, |class, segment| match segment {
+                        StringSegment::Variable(name) => class.join(self.variable_read_class(name)),
+                        StringSegment::Literal(..) => class,
+                    })
+                }
+            },
             Expr::Array { elements, .. } => {
                 elements.iter().fold(ExprClass::PureNoTrap, |class, element| {
                     class.join(self.classify_expr(element))
@@ -1250,6 +1257,19 @@ impl<'ast, 'res> Resolver<'ast, 'res> {
 
                 class
             }
+        }
+    }
+
+    /// A variable of the running function has been given its value by the time control reaches
+    /// a use of it. A variable of an enclosing function need not have been: functions are
+    /// callable from the start of their block, so the read can come before the `make` and is
+    /// then an `Undefined variable` runtime error.
+    fn variable_read_class(&self, name: &str) -> ExprClass {
+        match self.lookup_var_info(name) {
+            Some((_, local)) if self.facts.locals[local.0 as usize].owner != self.current_owner => {
+                ExprClass::PureMayTrap
+            }
+            _ => ExprClass::PureNoTrap,
         }
     }
 
